@@ -637,6 +637,35 @@ func (ex *Exec) eqVal(a, b *Val) string {
 						}
 					}
 					leaves(c)
+					// the zero value of the container type is the nil container
+					if z := ex.zeroSh(c.Sh, c.T); z != nil {
+						var zt []string
+						var zl func(v *Val)
+						zl = func(v *Val) {
+							if v == nil || v.Sh == nil {
+								return
+							}
+							if v.Sh.IsLeaf() {
+								zt = append(zt, v.S)
+								return
+							}
+							for _, k := range v.Kids {
+								zl(k)
+							}
+						}
+						zl(z)
+						if len(zt) == len(terms) && len(zt) > 0 {
+							same := true
+							for i := range zt {
+								if zt[i] != terms[i] {
+									same = false
+								}
+							}
+							if same {
+								return "true"
+							}
+						}
+					}
 					size := c.kid("len")
 					if c.Sh.Kind == "map" {
 						size = c.kid("card")
